@@ -5,6 +5,7 @@ import (
 	"context"
 	"fmt"
 	"github.com/bolkedebruin/rdpgw/cmd/rdpgw/security"
+	"github.com/bolkedebruin/rdpgw/cmd/rdpgw/web"
 	"net/http"
 	"os"
 	"path/filepath"
@@ -79,7 +80,10 @@ type TunnelPlan struct {
 	SplitLegacy bool     // legacy: open IN and OUT from two concurrent threads
 	InFirst     bool     // legacy: send the IN request before the OUT request
 	Cookie      string   // RealCookie scenarios: the minted token (filled by RunConc)
-	TokenHost   string   // RealCookie scenarios: host the token is minted for ("" = Host)
+	// SessionCookie (scenarios with Enrich): the value of the web session cookie the client's requests carry; the
+	// request then reaches the handler without an identity, as from the network
+	SessionCookie string
+	TokenHost     string // RealCookie scenarios: host the token is minted for ("" = Host)
 }
 
 // TunnelObs is the per-tunnel observation at the end of an execution.
@@ -104,6 +108,9 @@ type TunnelObs struct {
 
 // ConcScenario is a set of tunnels run concurrently.
 type ConcScenario struct {
+	// Enrich: the gateway endpoint is wrapped in web.EnrichContext as in main.go (the session store is
+	// initialised); requests of plans with a SessionCookie carry it
+	Enrich       bool
 	Name         string
 	Plans        []TunnelPlan
 	Gw           GwCfg
@@ -207,6 +214,13 @@ func mintCookies(sc *ConcScenario) {
 	sc.Plans = plans
 }
 
+const (
+	concSessionKey = "sessionkey-sessionkey-sessionkey"
+	concSessionEnc = "encrypt-encrypt-encrypt-encrypt-"
+)
+
+var concSharedCookie string
+
 // runClient plays one plan in the calling thread.
 func runClient(w *World, h http.Handler, p TunnelPlan, o *TunnelObs) {
 	id := NewIdentity("", p.IP, p.IP+":40000")
@@ -221,6 +235,20 @@ func runClient(w *World, h http.Handler, p TunnelPlan, o *TunnelObs) {
 		var extra http.Header
 		if p.StopAt == "accepted" {
 			extra = http.Header{"X-Verif-No-Preamble": {"1"}}
+		}
+		if p.SessionCookie != "" {
+			if extra == nil {
+				extra = http.Header{}
+			}
+			if concSharedCookie == "" {
+				// the session of somebody who logged in at the web side (a portal user), as the gateway stores it
+				wid := identity.NewUser()
+				wid.SetUserName("portal")
+				wid.SetAuthenticated(true)
+				concSharedCookie = sessionCookieOf(concSessionKey, concSessionEnc, wid)
+			}
+			extra.Set("Cookie", "RDPGWSESSION="+concSharedCookie)
+			id = nil
 		}
 		c, ok = w.OpenTunnel(p.Kind, h, nil, p.ConnID, p.IP+":40000", id, extra)
 		o.ClientConns = append(o.ClientConns, c.Conn)
@@ -598,6 +626,10 @@ func RunConc(sc ConcScenario, prefix []int, logOn bool) *ConcResult {
 		}
 		gw := NewGateway(cfg)
 		h := http.Handler(http.HandlerFunc(gw.HandleGatewayProtocol))
+		if sc.Enrich {
+			web.InitStore([]byte(concSessionKey), []byte(concSessionEnc), "cookie", 0)
+			h = web.EnrichContext(h)
+		}
 		byHost := map[string]*TunnelObs{}
 		for i := range sc.Plans {
 			o := &TunnelObs{Plan: sc.Plans[i], BackendIdx: -1}
@@ -806,6 +838,16 @@ func exploreConc(env *Env, rep *Report, sc ConcScenario, bound int, rl *raceLog,
 	// determinism guard: the default schedule twice
 	a, b := runOne(nil), runOne(nil)
 	if a.Outcome != b.Outcome || len(a.X.Decisions) != len(b.X.Decisions) {
+		// the same schedule of the same scenario twice, two observations: either the harness fails to control
+		// something (an infrastructure error), or the code under test keeps state that survives from one
+		// execution to the next and decides with it. If one of the two runs breaks the oracle, that is the
+		// verdict (every execution must satisfy it), reported without a schedule to replay.
+		if vs := append(append([]vsched.Violation{}, a.Violations...), b.Violations...); len(vs) > 0 {
+			for _, v := range vs {
+				rep.violate(v.Sig, "(the default schedule run twice gave two different observations: the outcome depends on state of the gateway that survives the execution: "+trunc200(a.Outcome)+" / "+trunc200(b.Outcome)+") "+v.Detail, map[string]any{"noreplay": true})
+			}
+			return
+		}
 		infra("scenario %s is not deterministic under replay: %q vs %q", sc.Name, a.Outcome, b.Outcome)
 	}
 	// the race runtime reports each pair of stacks once per process, so the guard
